@@ -165,10 +165,19 @@ def one(rec, t, ti, name, obj, mode):
         return None
     w = t.EoWriter()
     w.string_sanitization_mode = mode
+    # every fifth value goes into a writer that already holds data (a packet body follows a header, a nested
+    # struct follows its parent's fields): what is appended must not depend on what is already there
+    prefix = b"\x05\xfe\xff\x01" if rec.evals % 5 == 2 else b""
+    if prefix:
+        w.add_bytes(prefix)
+        rec.count("serializations-into-non-empty-writer")
     C = br.real_class(obj.cls)
     try:
         C.serialize(w, real)
         got, exc = bytes(w.to_bytearray()), None
+        if got[:len(prefix)] != prefix:
+            rec.violation("prefix-modified", "tree %d %s: serialize changed bytes already in the writer: %s" % (ti, name, got[:len(prefix)].hex()), case)
+        got = got[len(prefix):]
     except Exception as e:
         got, exc = None, e
     rec.count("serializations-compared")
